@@ -355,7 +355,28 @@ def e1_capacity_reestablished(F, r):
                 toks.add(gfn["upvars"][int(p[0])][0])
         if "node_size" in toks or any("node_size" in x for x in toks):
             okr = True
-    if okr:
+    # ... and EVERY node storage: `resize` also sets the capacity (the storages were created oversized for the initial balancing), so the walk over the nodes that resizes
+    # them may not drop nodes (a filter on the current size leaves sparse nodes with the oversized capacity) nor guard the call
+    DROP = ("adapters::filter::", "adapters::filter_map::", "adapters::skip::", "adapters::take::", "adapters::skip_while::", "adapters::take_while::", "adapters::step_by::")
+    partial = None
+    for g, t in rs:
+        gfn = F.fns[g]
+        rb = [bi for bi, tt in mir.calls(gfn) if tt is t][0]
+        guarded = [sb for sb, bb in enumerate(gfn["bbs"]) if bb["t"]["k"] == "switch" and mir.dominates(gfn, sb, rb) and sb != rb and
+                   any(rb not in mir.reach(gfn, [e]) and (set(mir.ret_blocks(gfn)) & mir.reach(gfn, [e])) for e in [x for _, x in bb["t"]["tg"]] + [bb["t"]["else"]])]
+        if guarded and gfn["kind"] == "Closure":
+            partial = (g, t, "the resize is guarded by a test inside the per-node step")
+        if gfn["kind"] == "Closure":
+            parent = F.fns[gfn["parent"]]
+            for _, ct in mir.calls(parent):
+                if ct["callee"].startswith("core::iter::traits::iterator::Iterator::") and ct["ga"] and any(g.split("::")[-1] in a_ or "closure" in a_ for a_ in ct["ga"][1:] or [""]):
+                    bad = [d.split("::")[1] for d in DROP if d in ct["ga"][0]]
+                    if bad and "Node" in ct["ga"][0]:
+                        partial = (gfn["parent"], ct, f"the walk over the nodes drops some of them ({', '.join(bad)})")
+    if okr and partial:
+        r.fail("Network::new: resize", f"not every node storage is resized to config.node_size — {partial[2]}: `resize` also resets the capacity, so a node that is sparse after the initial "
+               "balancing keeps the oversized initial capacity and later holds more individuals than node_size", F.loc(partial[0], partial[1]["ln"]))
+    elif okr:
         r.ok("Network::new: resize", "existing node storages are resized to config.node_size")
     else:
         r.fail("Network::new: resize", "the storages filled during the initial balancing are not resized to config.node_size", F.loc(nn[0]))
@@ -407,6 +428,35 @@ def a1_axis_agreement(F, r):
         r.ok("contract_graph: axis names", f"not decided for {undecided} call(s): arguments are not held in variables named x*/y*")
 
 
+def h1_node_error_finite(F, r):
+    """error measures stay finite: the per-node error `Node::mse` divides by the number of stored individuals — the division must be unreachable for an empty node (sign
+    analysis E-S: the size is refined to > 0 by the early return; both `size()` calls on the immutable receiver denote the same number). The other float divisions of the GSOM
+    code depend on configuration invariants (radius, learning rate) and are reported as not decided."""
+    from .. import signs
+    E = signs.Engine(F, {}, {})
+    decided = 0
+    for fid in sorted(F.fns):
+        if not fid.lstrip("<").startswith("rosomaxa::algorithms::gsom") or "::promoted[" in fid:
+            continue
+        fn = F.fns[fid]
+        if not any(s_["r"]["k"] == "bin" and s_["r"].get("op") == "Div" and s_["r"].get("ty") in ("f64", "f32") for _, _, s_ in mir.stmts(fn)):
+            continue
+        name = util.short_fn(fid)
+        a = E.analyse(fid)
+        hz = [h for h in a.hazards if h.kind == "div-by-zero"]
+        if fid.endswith("node::Node::<I, S>::mse") or (F.root_of(fid).endswith("node::Node::<I, S>::mse")):
+            decided += 1
+            if hz:
+                r.fail(f"{name}: division", "the per-node error divides by a storage size that may be zero (an empty node — freshly grown or drained — yields 0/0 = NaN in the "
+                       "network state)", F.loc(fid, hz[0].ln))
+            else:
+                r.ok(f"{name}: division", "divisor refined to > 0 (empty node answered before the division)")
+        else:
+            r.ok(f"{name}: division", "not decided (divisor bounded by configuration invariants, if at all)" if hz else "divisor never zero by sign analysis")
+    if decided == 0:
+        raise AnchorError("Node::mse with a float division not found")
+
+
 def run(ctx):
     ctx.explanation = (
         "Structural well-formedness of the GSOM behind the default population: the node map is private, mutated only in network.rs, every insertion keys "
@@ -415,6 +465,7 @@ def run(ctx):
         "reach grow_nodes without new input (M2); every assignment of the population phase moves strictly forward (M3).")
     ctx.not_decided = "finiteness of weights/errors, node capacity, lookup results, elite bounds (value-level)."
     ctx.run("C19-M1", "node map key == node.coordinate on every insertion; coordinate rewritten only in remap", m1_key_is_coordinate, floor=8)
+    ctx.run("C19-H1", "per-node error never divides by a possibly-zero size (sign analysis)", h1_node_error_finite, floor=1)
     ctx.run("C19-M2", "compaction never grows the map nor leaves fewer than four nodes", m2_compaction, floor=6)
     ctx.run("C19-E1", "node capacity: capacity re-assignment truncates; after construction storages are created and resized with node_size", e1_capacity_reestablished, floor=4)
     ctx.run("C19-A1", "compaction shifts each coordinate with its own axis' bounds and step", a1_axis_agreement, floor=1)
